@@ -1388,7 +1388,7 @@ pub fn check_session(cap: &Capture, scn: &DebugScenario, report: &mut Report) ->
     // ----- end of session -----
     if !stop_compare {
         if let Some(expected) = &expected_end {
-            if &real.end != expected {
+            if !crate::world_a::end_agrees(&real.end, expected) {
                 let (prop, key) = match &real.end {
                     End::Spin => (
                         "C16",
@@ -1443,7 +1443,7 @@ pub fn check_session(cap: &Capture, scn: &DebugScenario, report: &mut Report) ->
         && dbg.io.adopted_at.is_none()
         && dbg.io.puts_ambiguous_at.is_none()
         && !matches!(real.end, End::Spin | End::Fuel | End::KeysExhausted | End::Hang | End::Flood)
-        && expected_end.as_ref() == Some(&real.end)
+        && expected_end.as_ref().is_some_and(|e| crate::world_a::end_agrees(&real.end, e))
         && dbg.io.output_matches(&real.stdout).is_err()
     {
         let has_eval_output = scn.script.iter().any(|i| matches!(&i.cmd, Cmd::Eval(e) if matches!(e.kind, EvalKind::Word(w) if w >> 12 == 0xF)));
